@@ -313,6 +313,15 @@ def compare(ctx, ref, ref_events, got, got_events, ssa_var, out_regs):
     return None
 
 
+def make_key(pname, guilty, diff_class, stages):
+    if guilty == "ssa_to_unssa":
+        causes = sorted(c for c in stages.notes if c != "monitor error")
+        if causes:
+            # the out-of-SSA step is shared by both SSA protocols: one key per mechanism
+            return "pass=ssa_to_unssa cause=%s" % " + ".join(causes)
+    return "pipeline=%s pass=%s diff=%s" % (pname, guilty, diff_class)
+
+
 def attribute(ctx, head, stages, ids, seed, ref, ref_events, ssa_var, out_regs):
     """first snapshot whose behaviour deviates from the original"""
     from vf.models import irfunc_gen as G
@@ -362,7 +371,7 @@ def check_graph(rec, rng, ctx, ircfg, head, info, tier, case_id):
         stages = Stages()
         rec.count("pipeline_runs:" + pname)
         try:
-            with cpulimit.cpu_limit(60):
+            with cpulimit.cpu_limit(20):
                 out, ssa_var = run_pipeline(pname, ctx, work, head, stages)
         except cpulimit.CpuTimeout:
             rec.count("rejected_timeout:" + pname)
@@ -413,12 +422,7 @@ def check_graph(rec, rng, ctx, ircfg, head, info, tier, case_id):
                 continue
             failed.add(pname)
             guilty, why = attribute(ctx, head, stages, ids, seed, ref, ref_events, ssa_var, out_regs)
-            key = "pipeline=%s pass=%s diff=%s" % (pname, guilty, d[0])
-            if guilty == "ssa_to_unssa":
-                causes = sorted(c for c in stages.notes if c != "monitor error")
-                if causes:
-                    # the out-of-SSA step is shared by both SSA protocols: one key per mechanism
-                    key = "pass=ssa_to_unssa cause=%s" % " + ".join(causes)
+            key = make_key(pname, guilty, d[0], stages)
             wit = dict(info)
             wit["unssa_monitors"] = stages.notes
             wit.update(pipeline=pname, guilty_pass=guilty, first_deviation=why,
@@ -457,7 +461,9 @@ def deep_check(rec, rng, ctx, ircfg, head, info, results, out_regs, case_id, fai
             d = compare(ctx, ref, ref_events, got, got_events, ssa_var, out_regs)
             if d is None or d[0].startswith("skip:"):
                 continue
-            key = "pipeline=%s pass=%s diff=%s (intermediate)" % (pname, name, d[0])
+            key = make_key(pname, name, d[0], stages)
+            if not key.startswith("pass=ssa_to_unssa cause="):
+                key += " (intermediate)"
             wit = dict(info)
             wit.update(pipeline=pname, guilty_pass=name, regs={str(r): hex(v) for r, v in ids.items()},
                        mem_seed=seed, original=dump_graph(ctx, ircfg.blocks), snapshot=dump_graph(ctx, blocks))
@@ -467,6 +473,7 @@ def deep_check(rec, rng, ctx, ircfg, head, info, results, out_regs, case_id, fai
 
 def run_shard(params, rec):
     common.quiet()
+    common.limit_memory(4)
     from vf.models import cpulimit
     cpulimit.install()
     import pyparsing
